@@ -47,7 +47,7 @@ type Violation struct {
 
 func (v Violation) Sig() string {
 	s := v.Clause
-	if v.Clause == "api-panic" || v.Clause == "goroutine-panic" {
+	if v.Clause == "api-panic" || v.Clause == "goroutine-panic" || v.Clause == "data-race" {
 		// a panic is identified by the gengine function it came out of, whatever the entry point
 		return s + "/" + v.Detail
 	}
